@@ -31,6 +31,10 @@ def match_finding(findings, job, trace, verdict, at):
         c = f.get("class")
         if not c or not any(verdict.startswith(x) for x in c["clauses"]):
             continue
+        if c["predicate"] == "backslash_u_via" and e["op"] == "via" and e["how"] in c["formats"] and e["a"]["k"] == "lit":
+            import re
+            if re.search(r"\\[uU]", e["a"]["v"]):
+                return f
         if c["predicate"] == "decimal_nonfinite_via" and e["op"] == "via" and e["how"] in c["formats"] and e["a"]["k"] == "lit" and e["a"]["dt"].endswith("#decimal") \
                 and e["a"]["v"].lstrip("+-").lower() in ("infinity", "inf", "nan", "snan"):
             return f
@@ -64,7 +68,9 @@ def pool(variant, maxlen):
     T += [lit("banana", dt=XSD + "double"), lit("finance", dt=XSD + "decimal"), lit("infinite", dt=XSD + "float"), lit("Infinity war", dt=XSD + "double"), lit("nan", dt=XSD + "integer")]
     # multi-line literals ending in / containing quotes (the long-quote n3 form)
     T += [lit('a\nb"'), lit('line one\nline two"', lang="en"), lit('a\nb"', dt="http://ex.example/dt"), lit('a\nb""'), lit('\n"'), lit('a\nb"""'), lit("a\nb\\"), lit('"\n'), lit("a\nb'"),
-          lit("''" + "'\n"), lit('a\r"')]
+          lit("''" + "'\n"), lit('a\r"'), lit('a\n\\"'), lit('a\n\\\\"'), lit('\n\\"""'), lit('x\\"y'), lit('a\n"\\'),
+          # a backslash followed by u / U and hex digits: not an escape, but it looks like one
+          lit("\\u0041"), lit("\\U0001F600"), lit("a\\u00e9b\n"), lit("\\\\u0041"), lit("\\u00"), lit("\\x41")]
     T += [{"k": "iri", "v": u} for u in ("http://example.org/a?", "http://example.org/a;", "http://example.org/a?#frag", "HTTP://EXAMPLE.org/A", "http://example.org/a/./b/../c", "http://example.org/a#",
                                          "http://schema.org/name", "https://schema.org/name", "http://ex.example/T", "svn+ssh://h/p", "z39.50s://h/p", "mailto:a@b.example")]
     T += [lit("v", dt="http://schema.org/Text"), lit("v", dt="https://schema.org/Text"), lit("v", dt="http://ex.example/T")]
@@ -97,7 +103,7 @@ def n3_ok(t, how="from_n3"):
     if t["k"] == "bnode" and how in ("turtle", "ntriples", "sparql_values", "sparql_base", "sparql_prepared"):
         return False
     if t["k"] == "var":
-        return False
+        return how in ("from_n3", "from_n3_nsm")      # a variable is no term of a Turtle document or a VALUES block
     if t["k"] == "iri":
         return " " not in t["v"] and t["v"] != "" and ":" in t["v"]
     if t["k"] == "bnode":
